@@ -211,6 +211,10 @@ def run_rebuild(case):
                 runs = (3 if case.get("repeat") == 3 else 2) if case.get("repeat") else 1
                 rec["runs"] = runs
                 marg = [mdir] if len(trees) > 1 else [mpaths[0]]
+                if case.get("meta_args") == "files":        # every metafile its own argument
+                    marg = list(mpaths)
+                elif case.get("meta_args") == "both":       # the directory and one of its files again
+                    marg = [mdir, mpaths[-1]]
                 if case.get("rel_paths"):      # every path spelled relative to the working directory
                     os.chdir(sbx)
                     marg = [os.path.relpath(m, sbx) for m in marg]
@@ -293,6 +297,7 @@ def run_rebuild(case):
                 order = sorted(range(len(f.get("cands", []))), key=lambda k: (f["cands"][k].get("search", 0) % nse, k))
                 rec["files"].append({"torrent": ti, "path": [hexs(c) for c in f["path"]], "length": f["size"],
                                      "cands": [f["cands"][k]["cls"] for k in order],
+                                     "given": 2 if case.get("meta_args") == "both" and ti == len(trees) - 1 else 1,
                                      "dest_pre": f.get("dest_pre", "absent") if not case.get("hostile") else "absent",
                                      "pre_intact": (ti, fi) in pre and pre[(ti, fi)] == data, "after": state})
         for r in changed:
